@@ -11,12 +11,18 @@ Parts (see DESIGN.md 5/C15):
   * stress           free-running threads with a tiny switch interval (thorough tier);
   * oracle           the property's own text on the implementation's observations;
   * correspondence   Model/ThreadsRun.v on the same programs + schedule (ctx.coq_eval).
+Registrations go through EVERY public registration entry point of one dataset (World.exec_reg: Overloaded.register
+on its table, Dataset.register, @ds.overload(alias), @ds.overload([aliases...]) with a plain function or a ready-made
+dataset, @Interface.implementation(alias | [aliases...]), @implements(Interface, alias=[...])): operation level
+(all interleavings of fixed sets, random programs), line / opcode level inside overload.py + dataset.py, stress.
+For the model a registration of n aliases is n Register operations.
 No hook inside labrea is used.  Every wait has a timeout; a scenario that hangs is a harness error,
 never a violation.
 """
 import ast
 import itertools
 import os
+import random
 import sys
 import threading
 import time
@@ -312,10 +318,14 @@ def _base():
         types[q] = cls
     for q, tg in DEFAULTS.items():
         types[q].handle((lambda tg: (lambda request: tg))(tg))
+    from labrea import abstractdataset
+    import labrea.interface  # noqa: F401
+    _iface_mod = sys.modules["labrea.interface"]
     _BASE.update(runtime=runtime, Option=Option, cached=cached, dataset=dataset, MemoryCache=MemoryCache,
-                 Overloaded=Overloaded, Value=Value, types=types,
+                 Overloaded=Overloaded, Value=Value, types=types, abstractdataset=abstractdataset,
+                 interface=_iface_mod.interface, implements=_iface_mod.implements,
                  files={nm: os.path.realpath(sys.modules[f"labrea.{nm[:-3]}"].__file__)
-                        for nm in ("runtime.py", "overload.py", "cache.py")})
+                        for nm in ("runtime.py", "overload.py", "cache.py", "dataset.py", "interface.py")})
     return _BASE
 
 
@@ -323,12 +333,40 @@ def opts_of(o):
     return {"X": o // 10, "Y": o % 10}
 
 
-class World:
-    """fresh shared objects for one run: runtime objects, one Overloaded, one cached evaluatable"""
+REG_HOWS = ["ov", "ds", "deco", "decolist", "decolist_pre", "impl", "implements"]
 
-    def __init__(self, use_dataset=False):
+
+def uses_reg(progs):
+    return any(o[0] == "reg" for p in progs.values() for o in p)
+
+
+def reg_aliases(op):
+    """the aliases a registration operation registers, in the order in which it registers them"""
+    return [op[1]] if op[0] == "register" else list(op[2])
+
+
+class World:
+    """fresh shared objects for one run: runtime objects, one Overloaded, one cached evaluatable.
+    reg_dataset: the registrations of the run all go to ONE dataset (a member of an interface, so that every
+    public registration entry point applies to it): Overloaded.register on its table, Dataset.register,
+    @ds.overload(alias), @ds.overload([aliases...]), @Interface.implementation(alias | [aliases...]),
+    @implements(Interface, alias=[...])"""
+
+    def __init__(self, use_dataset=False, reg_dataset=False, progs=None):
         B = _base()
         self.B = B
+        self.regds = self.iface = None
+        self.pre = {}
+        if reg_dataset:
+            def m():
+                return None
+            m.__name__ = m.__qualname__ = "verif_member"
+            self.iface = B["interface"]("DISPATCH")(type("VerifInterface", (), {"m": B["abstractdataset"](m)}))
+            self.regds = self.iface.m
+            for t, prog in (progs or {}).items():        # implementations built before the threads start
+                for i, o in enumerate(prog):
+                    if o[0] == "reg" and o[1] == "decolist_pre":
+                        self.pre[(t, i)] = B["dataset"](self._fn(o[3]))
         rt = B["runtime"]
         self.rts = {r: rt.Runtime({B["types"][q]: (lambda tg: (lambda request: tg))(tg) for q, tg in h.items()})
                     for r, h in HEAP.items()}
@@ -358,7 +396,42 @@ class World:
         self.final = {}
         self.errors = []
 
-    def exec_op(self, tid, op):
+    @staticmethod
+    def _fn(v):
+        def impl():
+            return v
+        impl.__name__ = impl.__qualname__ = f"verif_impl_{v}"
+        return impl
+
+    def target(self):
+        """the overload table the registrations of this run go to (read afresh: never a saved reference)"""
+        return self.regds.overloads if self.regds is not None else self.ov
+
+    def exec_reg(self, tid, op, idx):
+        B = self.B
+        how, aliases, v = op[1], list(op[2]), op[3]
+        ds = self.regds
+        if how == "ov":
+            for a in aliases:
+                ds.overloads.register(a, B["Value"](v))
+        elif how == "ds":
+            for a in aliases:
+                ds.register(a, B["Value"](v))
+        elif how == "deco":
+            for a in aliases:
+                ds.overload(a)(self._fn(v))
+        elif how == "decolist":
+            ds.overload(aliases)(self._fn(v))
+        elif how == "decolist_pre":
+            ds.overload(aliases)(self.pre.get((tid, idx)) or B["dataset"](self._fn(v)))
+        elif how == "impl":
+            self.iface.implementation(aliases if len(aliases) > 1 else aliases[0])(type(f"VerifImpl{v}", (), {"m": v}))
+        elif how == "implements":
+            B["implements"](self.iface, alias=aliases)(type(f"VerifImpl{v}", (), {"m": staticmethod(self._fn(v))}))
+        else:
+            raise AssertionError(op)
+
+    def exec_op(self, tid, op, idx=None):
         B = self.B
         k = op[0]
         try:
@@ -377,7 +450,9 @@ class World:
             elif k == "inherit":
                 B["runtime"].inherit(self.threads[op[1]])
             elif k == "register":
-                self.ov.register(op[1], B["Value"](op[2]))
+                self.target().register(op[1], B["Value"](op[2]))
+            elif k == "reg":
+                self.exec_reg(tid, op, idx)
             elif k == "eval":
                 self.evals[tid].append((op[1], self.ev.evaluate(opts_of(op[1]))))
             elif k == "final":
@@ -394,9 +469,18 @@ class World:
             elif k == "final":
                 self.final[tid] = "ERR"
 
+    @staticmethod
+    def _impl_value(v):
+        if hasattr(v, "value"):
+            return v.value
+        try:
+            return v.evaluate({})
+        except Exception:
+            return "?"
+
     def table(self):
         try:
-            return sorted((k, getattr(v, "value", "?")) for k, v in self.ov.lookup.items())
+            return sorted((k, self._impl_value(v)) for k, v in self.target().lookup.items())
         except Exception as e:
             return [("ERR", type(e).__name__)]
 
@@ -427,9 +511,14 @@ def reference(progs, order):
     tags = {t: [] for t in progs}
     evals = {t: [] for t in progs}
     table = {}
-    for t, i in order:
+    for ent in order:
+        t, i = ent[0], ent[1]
         op = progs[t][i]
         k = op[0]
+        if k == "reg":          # (t, i): the whole operation; (t, i, j): its j-th alias taking effect
+            for a in (list(op[2]) if len(ent) == 2 else [list(op[2])[ent[2]]]):
+                table[a] = op[3]
+            continue
         if k == "enter":
             stack[t].append(cur[t]); cur[t] = op[1]
         elif k == "exit":
@@ -458,7 +547,7 @@ class Hang(Exception):
 def run_oplevel(progs, sched, use_dataset=False):
     """Run `progs` ({tid: [op]}) on labrea; `sched` is a list of thread ids, each entry lets that thread
     execute its next whole operation.  Returns (observation string, order, world)."""
-    w = World(use_dataset)
+    w = World(use_dataset, uses_reg(progs), progs)
     tids = sorted(progs)
     go = {t: threading.Semaphore(0) for t in tids}
     done = threading.Semaphore(0)
@@ -473,7 +562,7 @@ def run_oplevel(progs, sched, use_dataset=False):
             op = cmd[t]
             if op is None:
                 return
-            w.exec_op(t, op)
+            w.exec_op(t, op, cmd.get(("idx", t)))
             done.release()
 
     for t in tids:
@@ -496,6 +585,7 @@ def run_oplevel(progs, sched, use_dataset=False):
         for t in sched:
             if nxt[t] < len(progs[t]):
                 order.append((t, nxt[t]))
+                cmd[("idx", t)] = nxt[t]
                 tell(t, progs[t][nxt[t]])
                 nxt[t] += 1
         for t in tids:
@@ -551,8 +641,28 @@ def coq_op(op):
     raise AssertionError(op)
 
 
+def model_ops(op):
+    """the model's operations for one operation of a program: a registration of n aliases (whatever the entry
+    point) is n Register operations, in the order in which the aliases are registered"""
+    if op[0] == "reg":
+        return [("register", a, op[3]) for a in op[2]]
+    return [op]
+
+
 def coq_progs(progs):
-    return "[" + "; ".join(f"({t}, [" + "; ".join(coq_op(o) for o in progs[t]) + "])" for t in sorted(progs)) + "]"
+    return "[" + "; ".join(f"({t}, [" + "; ".join(coq_op(m) for o in progs[t] for m in model_ops(o)) + "])"
+                           for t in sorted(progs)) + "]"
+
+
+def expand_sched(progs, sched):
+    """operation-level schedule (one entry = the thread's next WHOLE operation) -> the model's schedule"""
+    nxt = {t: 0 for t in progs}
+    out = []
+    for t in sched:
+        if nxt[t] < len(progs[t]):
+            out += [t] * len(model_ops(progs[t][nxt[t]]))
+            nxt[t] += 1
+    return out
 
 
 COQ_PRELUDE = ("Open Scope N_scope.\n"
@@ -564,6 +674,8 @@ COQ_PRELUDE = ("Open Scope N_scope.\n"
 
 def coq_case(flags, progs, sched, oplevel):
     fn = "observe_ops" if oplevel else "observe"
+    if oplevel:
+        sched = expand_sched(progs, sched)
     return f"{fn} {coq_flags(flags)} hp df {coq_progs(progs)} [" + "; ".join(str(t) for t in sched) + "]"
 
 
@@ -596,7 +708,9 @@ class LineRun:
     Yield points are the 'line' (or 'opcode') trace events inside the given labrea files."""
 
     def __init__(self, progs, files, preempts, start=None, scan=None, opcodes=False, use_dataset=False):
-        self.w = World(use_dataset)
+        self.w = World(use_dataset, uses_reg(progs), progs)
+        self.nreg = {}
+        self.lastline = {}         # tid -> last (file, line) seen (opcode events repeat the line)
         self.progs = progs
         self.tids = sorted(progs)
         self.files = {_base()["files"][f]: f for f in files}
@@ -725,6 +839,14 @@ class LineRun:
                     elif kind == "get" and "S" not in done and "C" not in done:
                         self._note(me, "G")
             return
+        if k == "reg":          # one effect per alias: each time the locked body of Overloaded.register is entered
+            f, rng = self.action_line["register"]
+            if rng and f == fname and line == rng[0] and self.lastline.get(me) != (fname, line):
+                n = self.nreg.get((me, cur[0]), 0)
+                self.nreg[(me, cur[0])] = n + 1
+                self._note(me, f"A{n}")
+            self.lastline[me] = (fname, line)
+            return
         f, rng = self.action_line.get(k, (None, None))
         if rng and f == fname and line == rng[0]:
             self._note(me, "A")
@@ -762,7 +884,7 @@ class LineRun:
             try:
                 for i, op in enumerate(self.progs[me]):
                     self.curop[me] = (i, op)
-                    w.exec_op(me, op)
+                    w.exec_op(me, op, i)
                 self.curop[me] = None
                 w.exec_op(me, ("final",))      # still traced: it takes the module lock
             finally:
@@ -799,6 +921,16 @@ class LineRun:
         return w.observation(self.tids, True)
 
 
+def warm_up(progs, files, scan, use_dataset=False):
+    """CPython instruments a code object for per-instruction events the first time a frame of it asks for them, from
+    that point on: the first traced execution of a function in a process yields fewer 'opcode' events than the later
+    ones.  One unscheduled run first, so that yield indices mean the same in every run (and in a replay)."""
+    try:
+        LineRun(progs, files, {}, scan=scan, opcodes=True, use_dataset=use_dataset).go()
+    except Hang:
+        pass
+
+
 def explore_line(progs, files, bound, scan, opcodes=False, budget=None, rng=None, use_dataset=False):
     """All schedules of `progs` with at most `bound` preemptions, level by level (0, 1, 2 ... preemptions);
     when the budget of runs does not cover a level, that level is visited in random order (rng) until the
@@ -806,6 +938,8 @@ def explore_line(progs, files, bound, scan, opcodes=False, budget=None, rng=None
     tids = sorted(progs)
     level = [({}, s) for s in tids]
     runs = hangs = 0
+    if opcodes:
+        warm_up(progs, files, scan, use_dataset)
     for depth in range(bound + 1):
         nxt = []
         if budget is not None and rng is not None and runs + len(level) > budget:
@@ -844,6 +978,9 @@ def model_schedule(progs, order):
             if op[0] == "eval":
                 if "E" not in ks or not ("G" in ks or ("C" in ks and "S" in ks)) or ("C" in ks) != ("S" in ks):
                     return None
+            elif op[0] == "reg":
+                if ks != [f"A{j}" for j in range(len(op[2]))]:
+                    return None
             elif ks != ["A"]:
                 return None
     sched, eff = [], []
@@ -851,6 +988,8 @@ def model_schedule(progs, order):
         ks = kinds[(t, i)]
         if k == "A":
             sched.append(t); eff.append((t, i))
+        elif k[0] == "A":
+            sched.append(t); eff.append((t, i, int(k[1:])))
         elif k == "E":
             sched += [t] if "G" in ks else [t, t]
             eff.append((t, i))
@@ -899,8 +1038,9 @@ def oracle(progs, w, eff_order):
     regs = {}
     for t, prog in progs.items():
         for o in prog:
-            if o[0] == "register":
-                regs.setdefault(o[1], set()).add(o[2])
+            if o[0] in ("register", "reg"):
+                for a in reg_aliases(o):
+                    regs.setdefault(a, set()).add(o[2] if o[0] == "register" else o[3])
     tab = dict(w.table())
     for a, impls in regs.items():
         if a not in tab:
@@ -940,7 +1080,21 @@ FIXED_OP = [
                2: [("inherit", 1), ("eval", 32), ("register", 1, 11), ("run", 1)]}),
 ]
 
+# registrations on ONE dataset through every public entry point (see World.exec_reg), alias lists included
+FIXED_OP_REG = [
+    ("register-entry-points", {1: [("reg", "decolist", (1, 2), 10), ("reg", "ds", (3,), 11)],
+                               2: [("reg", "impl", (3, 4), 20), ("reg", "deco", (1,), 21)],
+                               3: [("reg", "ov", (5,), 30), ("reg", "implements", (2, 5), 31)]}),
+    ("alias-lists", {1: [("reg", "decolist", (1, 2, 3), 10), ("register", 4, 11)],
+                     2: [("reg", "decolist_pre", (3, 4), 20), ("reg", "decolist", (5, 1), 21)]}),
+]
+
+# quick-tier budgets (line runs, opcode runs) of the registration sets added to FIXED_LINE below
+REG_BUDGET = {"lost-update-alias-lists": (200, 320), "alias-list-vs-register": (150, 250),
+              "alias-list-decorated-function": (150, 200), "implementation-aliases": (100, 120)}
+
 LOST = {1: [("register", 1, 10)], 2: [("register", 2, 20)]}
+LOST_LIST = {1: [("reg", "decolist_pre", (1, 2), 10)], 2: [("reg", "decolist_pre", (3, 4), 20)]}
 
 FIXED_LINE = [
     # name, progs, files, line bound (quick, thorough), opcode bound (quick, thorough) or None
@@ -953,6 +1107,15 @@ FIXED_LINE = [
                        2: [("run", 1), ("enter", 1), ("exit",), ("run", 1)]}, ["runtime.py"], (2, 2), None),
     ("inherit", {1: [("enter", 1), ("exit",), ("run", 1)], 2: [("inherit", 1), ("run", 1)]},
      ["runtime.py"], (2, 3), (1, 1)),
+    # the same read-modify-write window reached through the other registration entry points (dataset.py: Dataset.overload
+    # with an alias list, Dataset.register; interface.py: the implementation decorators)
+    ("lost-update-alias-lists", LOST_LIST, ["overload.py", "dataset.py"], (2, 2), (1, 2)),
+    ("alias-list-vs-register", {1: [("reg", "decolist_pre", (1, 2), 10)], 2: [("register", 3, 20), ("reg", "ds", (2, 4), 30)]},
+     ["overload.py", "dataset.py"], (2, 2), (1, 1)),
+    ("alias-list-decorated-function", {1: [("reg", "decolist", (1, 2), 10)], 2: [("reg", "deco", (3,), 20)]},
+     ["overload.py"], (2, 3), (1, 1)),
+    ("implementation-aliases", {1: [("reg", "impl", (1, 2), 10)], 2: [("reg", "implements", (3, 1), 20)]},
+     ["overload.py"], (2, 3), (1, 1)),
     ("eval-same-fp", {1: [("eval", 31)], 2: [("eval", 32)]}, ["cache.py"], (2, 3), None),
     ("eval-diff-fp", {1: [("eval", 31), ("eval", 41)], 2: [("eval", 41)]}, ["cache.py"], (2, 2), None),
 ]
@@ -974,6 +1137,10 @@ def gen_prog(rng, me, tids, n, kinds):
                 prog.append(("run", rng.choice([1, 1, 2, 3])))
         elif k == "register":
             prog.append(("register", rng.choice([1, 2, 3, 4]), 10 * me + rng.randint(0, 9)))
+        elif k == "reg":        # a registration on the shared dataset through any public entry point
+            how = rng.choice(REG_HOWS + ["decolist", "decolist_pre", "impl"])
+            n = rng.choice([2, 2, 3]) if how in ("decolist", "decolist_pre", "impl", "implements") and rng.random() < 0.85 else 1
+            prog.append(("reg", how, tuple(rng.sample([1, 2, 3, 4, 5], n)), 10 * me + rng.randint(0, 9)))
         else:
             prog.append(("eval", rng.choice(EVAL_OPTS)))
     prog += [("exit",)] * depth
@@ -1009,7 +1176,8 @@ def stress(rounds, viol, deadline):
         for rd in range(rounds):
             if time.time() > deadline:
                 break
-            w = World(use_dataset=(rd % 4 == 0))
+            regds = rd % 2 == 1          # every other round: registrations on a dataset, through all its entry points
+            w = World(use_dataset=(rd % 4 == 0), reg_dataset=regds)
             nthr, per = 3, 12
             bar = threading.Barrier(nthr, timeout=WAIT)
             res = {}
@@ -1021,7 +1189,13 @@ def stress(rounds, viol, deadline):
                 except threading.BrokenBarrierError:
                     return
                 for j in range(per):
-                    w.exec_op(t, ("register", 100 * t + j, j))
+                    if regds and j % 2 == 0:     # alias 100t+j as always, plus a second alias of the same registration
+                        how = ["decolist", "impl", "implements", "decolist"][(j // 2) % 4]
+                        w.exec_op(t, ("reg", how, (100 * t + j, 1000 + 100 * t + j), j))
+                    elif regds:
+                        w.exec_op(t, ("reg", ["ds", "deco", "ov"][(j // 2) % 3], (100 * t + j,), j))
+                    else:
+                        w.exec_op(t, ("register", 100 * t + j, j))
                     w.exec_op(t, ("eval", 10 * ((t + j) % 4 + 1) + t))
                     if j % 4 == 0:
                         w.exec_op(t, ("enter", 1 + (t + j) % 3)); w.exec_op(t, ("run", 2)); w.exec_op(t, ("exit",))
@@ -1039,6 +1213,8 @@ def stress(rounds, viol, deadline):
             done += 1
             tab = dict(w.table())
             missing = [100 * t + j for t in range(1, nthr + 1) for j in range(per) if tab.get(100 * t + j) != j]
+            if regds:
+                missing += [1000 + 100 * t + j for t in range(1, nthr + 1) for j in range(0, per, 2) if tab.get(1000 + 100 * t + j) != j]
             wrong = [(t, o, v) for t in range(1, nthr + 1) for o, v in w.evals[t] if v != o // 10]
             wtags = [(t, w.tags[t]) for t in range(1, nthr + 1)
                      if w.tags[t] != [HEAP[1 + (t + j) % 3].get(2, DEFAULTS[2]) for j in range(0, per, 4)]]
@@ -1186,6 +1362,21 @@ def run(ctx):
         for sched in ils:
             do_op_run(C, "op/" + name, progs, sched, use_dataset=(name == "eval"))
     exhaustive_sets = len(FIXED_OP)
+    # registrations through every public entry point on one dataset (own generator: the streams above and below are
+    # the ones they were before these existed)
+    rrng = random.Random(ctx.seed * 31 + 15)
+    for name, progs in FIXED_OP_REG:
+        C.count_ops(progs)
+        ils = interleavings({t: len(p) for t, p in progs.items()})
+        if len(ils) > (120 if quick else 2000):
+            ils = rrng.sample(ils, 120 if quick else 2000)
+        for sched in ils:
+            do_op_run(C, "op/" + name, progs, sched)
+    for i in range(150 if quick else 1500):
+        kinds = rrng.choice([["reg"], ["reg", "register"], ["reg", "register", "eval", "handler"]])
+        progs = gen_progs(rrng, rrng.choice([2, 3, 3]), rrng.choice([3, 4, 6]), kinds)
+        C.count_ops(progs)
+        do_op_run(C, "op/random-" + "+".join(kinds), progs, random_schedule(rrng, progs))
     for i in range(25 if quick else 80):
         kinds = rng.choice([["handler"], ["handler"], ["register"], ["eval"], ["handler", "register", "eval"]])
         progs = gen_progs(rng, rng.choice([2, 2, 3]), 3, kinds)
@@ -1206,10 +1397,11 @@ def run(ctx):
     for name, progs, files, lb, ob in FIXED_LINE:
         C.count_ops(progs)
         bound = lb[0] if quick else lb[1]
-        do_line_explore(C, "line/" + name, progs, files, bound, scan, False, 700 if quick else 12000, rng)
+        lbud, obud = REG_BUDGET.get(name, (700, 500))
+        do_line_explore(C, "line/" + name, progs, files, bound, scan, False, lbud if quick else 12000, rng)
         if ob is not None:
             obound = ob[0] if (quick and not hard) else ob[1]
-            do_line_explore(C, "opcode/" + name, progs, files, obound, scan, True, 500 if (quick and not hard) else 8000, rng)
+            do_line_explore(C, "opcode/" + name, progs, files, obound, scan, True, obud if (quick and not hard) else 8000, rng)
     i = 0
     while time.time() < deadline and i < (12 if quick else 150):
         i += 1
@@ -1220,6 +1412,13 @@ def run(ctx):
         C.count_ops(progs)
         do_line_explore(C, "line/random-" + "+".join(kinds), progs, files, 2 if quick else 3, scan, False,
                         150 if quick else 600, rng)
+    i = 0
+    while time.time() < deadline + 15 and i < (2 if quick else 40):
+        i += 1
+        files = rrng.choice([["overload.py"], ["overload.py", "dataset.py"]])
+        progs = gen_progs(rrng, 2, 2, ["reg"] if i % 2 else ["reg", "register"])
+        C.count_ops(progs)
+        do_line_explore(C, "line/random-reg", progs, files, 2 if quick else 3, scan, False, 100 if quick else 600, rrng)
     # 5. stress
     sviol = []
     srounds = stress(60 if quick else 8000, sviol, time.time() + (10 if quick else 240))
@@ -1247,7 +1446,10 @@ def run(ctx):
                 "interleavings of the fixed and small random program sets (sampled above the cap) + random schedules of larger ones; "
                 "line level: all schedules with <= 2 (quick) / 3 (thorough) preemptions between lines of labrea/runtime.py, overload.py, "
                 "cache.py (budgeted, frontier sampled beyond), opcode level with <= 1/2 preemptions for register/enter/inherit; stress "
-                "rounds with switch interval 1e-6. distinct = hash of (programs, effect-order schedule); non-trivial = >= 2 threads and "
+                "rounds with switch interval 1e-6. Registrations also on ONE dataset through every public entry point (Overloaded.register, "
+                "Dataset.register, @ds.overload(alias), @ds.overload([aliases]) with a function or a ready-made dataset, "
+                "@Interface.implementation, @implements(..., alias=[...])), at all three levels and in every other stress round; opcode-level "
+                "runs are preceded by one unscheduled run (CPython instruments code objects lazily). distinct = hash of (programs, effect-order schedule); non-trivial = >= 2 threads and "
                 "the schedule switches thread at least twice (op level) or is a mapped line-level run.",
         "samples": C.samples,
         "traces_validated_against_impl": len(exprs),
@@ -1289,7 +1491,7 @@ def replay(ctx, payload):
         sv = []
         n = stress(2000, sv, time.time() + 120)
         return bool(sv), {"rounds": n, "violations": sv[:2]}
-    progs = {int(t): [tuple(o) for o in p] for t, p in v["progs"].items()}
+    progs = {int(t): [tuple(tuple(x) if isinstance(x, list) else x for x in o) for o in p] for t, p in v["progs"].items()}
     try:
         scan = scan_atomicity(lib.REPO)
         flags = scan["flags"]
@@ -1302,6 +1504,8 @@ def replay(ctx, payload):
                           [coq_case(flags, progs, list(v["sched"]), True)])[0]
         return bool(bad) or ml != obs, {"oracle": bad[:4], "impl": obs, "model": ml}
     P = {int(k): t for k, t in v["preempts"].items()}
+    if v.get("opcodes", False):
+        warm_up(progs, v["files"], scan)
     r = LineRun(progs, v["files"], P, start=v.get("start"), scan=scan, opcodes=v.get("opcodes", False))
     obs = r.go()
     ms = model_schedule(progs, r.order) if all(flags.values()) else None
